@@ -7,11 +7,12 @@
 //! (3) totality on arbitrary/mutated bytes: no panic; Ok(img) ⇒ pixel count =
 //! w·h and dims = the header's (independent header reader).
 
+use super::iofault::{scratch_path, Chunky};
 use super::mutate::{mutate, show};
 use crate::{catch, Cfg, Hasher, Json, Report, Rng};
 use re::math::color::{rgb, Color3};
 use re::util::buf::Buf2;
-use re::util::pnm::{parse_pnm, read_pnm, write_ppm};
+use re::util::pnm::{load_pnm, parse_pnm, read_pnm, save_ppm, write_ppm};
 
 type Img = (u32, u32, Vec<[u8; 3]>);
 
@@ -20,14 +21,46 @@ fn decode_both(rep: &mut Report, bytes: &[u8], what: &str) -> Option<Result<Img,
     let r1 = catch(move || parse_pnm(b1).map(|b| (b.width(), b.height(), b.data().iter().map(|c| c.0).collect::<Vec<_>>())).map_err(|e| format!("{e:?}")));
     let r2 = catch(|| read_pnm(bytes).map(|b| (b.width(), b.height(), b.data().iter().map(|c| c.0).collect::<Vec<_>>())).map_err(|e| format!("{e:?}")));
     let cj = || Json::obj().set("what", what).set("input", show(bytes)).set("input_len", bytes.len());
-    match (r1, r2) {
-        (Err(m), _) | (_, Err(m)) => {
+    // Fault injection at the reader: the same bytes in random 1..7-byte
+    // chunks with injected EINTR (every Read consumer must retry those) must
+    // decode to the same result; a reader that fails for good at offset k must
+    // not make the decoder panic, and an Ok image must still be w·h pixels.
+    let mut hs = Hasher::new();
+    hs.bytes(bytes);
+    let seed = hs.get();
+    let mut chunky = Chunky::new(bytes, seed, None);
+    let r3 = catch(|| read_pnm(&mut chunky).map(|b| (b.width(), b.height(), b.data().iter().map(|c| c.0).collect::<Vec<_>>())).map_err(|e| format!("{e:?}")));
+    rep.add("reader_faults.short_reads", chunky.reads - chunky.interrupts);
+    rep.add("reader_faults.injected_eintr", chunky.interrupts);
+    if !bytes.is_empty() {
+        let k = (seed >> 20) as usize % bytes.len();
+        let mut failing = Chunky::new(bytes, seed ^ 0x5555, Some(k));
+        let r4 = catch(|| read_pnm(&mut failing).map(|b| (b.width() as u64 * b.height() as u64, b.data().len() as u64)));
+        rep.count("reader_faults.hard_failure_midstream");
+        match r4 {
+            Err(m) => {
+                rep.violation("pnm.decode_panicked", format!("read_pnm panicked when the reader failed at offset {k}: {m}"), cj().set("reader_fails_at", k));
+                return None;
+            }
+            Ok(Ok((wh, n))) if wh != n => {
+                rep.violation("pnm.pixel_count_ne_w_times_h", format!("reader failing at offset {k}: Ok(image) with w*h = {wh} but {n} pixels"), cj().set("reader_fails_at", k));
+                return None;
+            }
+            _ => {}
+        }
+    }
+    match (r1, r2, r3) {
+        (Err(m), _, _) | (_, Err(m), _) | (_, _, Err(m)) => {
             rep.violation("pnm.decode_panicked", format!("decoding panicked: {m}"), cj());
             None
         }
-        (Ok(a), Ok(b)) => {
+        (Ok(a), Ok(b), Ok(c)) => {
             if a != b {
                 rep.violation("pnm.parse_vs_read_differ", format!("parse_pnm and read_pnm disagree: {:?} vs {:?}", a.as_ref().map(|x| (x.0, x.1)), b.as_ref().map(|x| (x.0, x.1))), cj());
+                return None;
+            }
+            if a != c {
+                rep.violation("pnm.parse_vs_read_differ", format!("read_pnm from a reader delivering short chunks with EINTR disagrees with parse_pnm: {:?} vs {:?}", a.as_ref().map(|x| (x.0, x.1)), c.as_ref().map(|x| (x.0, x.1))), cj().set("reader", "short chunks + EINTR"));
                 return None;
             }
             Some(a)
@@ -99,6 +132,37 @@ fn roundtrip_case(rng: &mut Rng, rep: &mut Report, idx: u64) {
     }
     if idx < 2 {
         rep.sample(|| cj().set("encoded_head", show(&out[..out.len().min(40)])));
+    }
+    // one case in 16 also goes through the file system: save_ppm / load_pnm
+    if idx % 16 == 0 {
+        let path = scratch_path("rt.ppm");
+        let sv = catch(|| if strided { save_ppm(&path, parent.slice((ox..ox + w, oy..oy + h))) } else { save_ppm(&path, &parent) });
+        match sv {
+            Err(m) => rep.violation("pnm.write_panicked", format!("save_ppm panicked: {m}"), cj()),
+            Ok(Err(e)) => rep.count(&format!("file_roundtrip.environment_error({})", e.kind())),
+            Ok(Ok(())) => {
+                let on_disk = std::fs::read(&path).unwrap_or_default();
+                let ld = catch(|| load_pnm(&path).map(|b| (b.width(), b.height(), b.data().iter().map(|c| c.0).collect::<Vec<_>>())).map_err(|e| format!("{e:?}")));
+                let _ = std::fs::remove_file(&path);
+                if on_disk != out {
+                    rep.violation("pnm.roundtrip_pixels", format!("save_ppm wrote {} bytes that differ from write_ppm's {} bytes for the same image", on_disk.len(), out.len()), cj());
+                } else {
+                    match ld {
+                        Err(m) => rep.violation("pnm.decode_panicked", format!("load_pnm panicked: {m}"), cj()),
+                        Ok(Err(e)) => rep.violation("pnm.roundtrip_rejected", format!("load_pnm rejects the file save_ppm wrote: {e}"), cj().set("encoded", show(&out))),
+                        Ok(Ok((gw, gh, gp))) => {
+                            if (gw, gh) != (w, h) {
+                                rep.violation("pnm.roundtrip_dims", format!("saved {w}x{h}, loaded {gw}x{gh}"), cj());
+                            } else if gp != expect {
+                                rep.violation("pnm.roundtrip_pixels", "save_ppm / load_pnm round trip changed pixels".into(), cj());
+                            } else {
+                                rep.count("file_roundtrip.save_load_compared");
+                            }
+                        }
+                    }
+                }
+            }
+        }
     }
     match decode_both(rep, &out, "round trip of write_ppm output") {
         None => {}
@@ -379,5 +443,8 @@ pub fn run(cfg: &Cfg, rep: &mut Report) {
     rep.floor("totality.decoded_ok", 20_000);
     rep.floor("totality.rejected_with_error", 100_000);
     rep.floor("totality.dims_cross_checked", 10_000);
+    rep.floor("reader_faults.injected_eintr", 100_000);
+    rep.floor("reader_faults.hard_failure_midstream", 100_000);
+    rep.floor("file_roundtrip.save_load_compared", 1_000);
     let _: Option<Color3> = None;
 }
